@@ -38,7 +38,9 @@ CHECKS = {
              "where the unchanged code is not byte-identical are recorded findings with replayed witnesses.",
         ref="DESIGN.md 5.10",
         note="Known findings: mrgn-64-slots (fixture test-chkjson-scm.chk), upus-recomputed (fixture demon_lore), "
-             "orphan-weapons-zeroed. The whole-map theorem is stated (C03_full_statement) but not proved.",
+             "orphan-weapons-zeroed, swnm-empty-name-zeroed, uprp-slot-dropped-fields-only. The idempotence clause "
+             "(C03_full_statement) is REFUTED on the model by theorem C03_idempotence_refuted (witness evaluated in the "
+             "kernel, replayed on the implementation every run).",
         tech="Coq proof (slot-level round trips, partial) + byte-exact correspondence of the pipeline model + byte-identity / idempotence oracle",
     ),
     "C04": dict(
@@ -49,7 +51,8 @@ CHECKS = {
              "implementation: authored scenarios over all 51+22 types, read back by an independent reader resolving every "
              "reference to content; the pipeline model reproduces the saved bytes exactly.",
         ref="DESIGN.md 5.11",
-        note="Guards: 7-bit strings, hit points multiples of 1/256, no weapon shared between customised units (F20).",
+        note="Guards: hit points multiples of 1/256. Non 7-bit strings are refused since cee72c9. Known finding "
+             "shared-weapon-stale-copy (replayed witness).",
         tech="Coq proof (field-level theorem for all types; composition of C05/C08/C09 lemmas, partial) + byte-exact model correspondence + independent-reader oracle",
     ),
     "C05": dict(
@@ -107,7 +110,8 @@ CHECKS = {
              "with the range constants regenerated from the source: for EVERY occupancy and EVERY batch in EVERY "
              "iteration order, carried indices are kept or the object is not placed, no slot goes to two objects, every "
              "slot used was empty, new ids lie in range and are never the reserved Anywhere id; exhaustion raises (MRGN: "
-             "leaves unplaced), a full table never blocks a no-op. Tie: per-object outcome of the real editors under "
+             "leaves unplaced), a full table never blocks a no-op, and a location carrying a free in-range index is placed "
+             "there however full the table is. Tie: per-object outcome of the real editors under "
              "forced iteration orders vs the extracted model, plus the property evaluated on the real result.",
         ref="DESIGN.md 5.7",
         note="The model sees objects as requests (carry k / fresh / equal-to-existing); the harness derives the request "
@@ -118,34 +122,43 @@ CHECKS = {
         text="Coq theorem: the allocation engine's result for two iteration orders of the same request set (distinct unused "
              "carried indices, n index-less objects) agrees on success/raise, keeps carried indices, and hands the SAME "
              "list of ids to the index-less objects, so outputs differ by a bijection on new slot numbers; fresh ids are "
-             "always a prefix of the free list. Tie/search: every scenario saved in separate interpreters under different "
+             "always a prefix of the free list; the same for EVERY table mode (order_independent_gen: the location table that leaves "
+             "the surplus unplaced, the switch editor). Tie/search: every scenario saved in separate interpreters under different "
              "PYTHONHASHSEED and allocation padding, compared in a canonical form that abstracts only new slot numbers.",
         ref="DESIGN.md 5.8",
         note="Order independence of the string table is by construction (lists / OrderedDicts only) and is covered by the "
-             "multi-process comparison, not by a theorem. Known finding F18 (two authored switches claiming one index).",
+             "multi-process comparison, not by a theorem. Known finding two-switches-one-index (two switch VALUES with one index, "
+             "incl. a bare-index reference to a named switch). Two order-dependence defects repaired (620b222, 7e75338).",
         tech="Coq proof (permutation invariance of the allocation engine) + multi-process hash-seed differential",
     ),
     "C10": dict(
         text="Coq theorems over the pipeline model: for every decoded map, every position holding an unmodelled section "
              "and ANY edits leaving that position alone, the save puts the very same section there; an action / condition "
              "whose type byte is outside the enumeration, or inside it without a transcoder, is kept as the raw record by "
-             "decode and written back field for field by encode, for any lookups. Tie: maps with unknown / unsupported "
-             "content plus random edits, byte ranges compared on the implementation, and the model reproduces the saved "
-             "bytes exactly.",
+             "decode and written back field for field by encode, for any lookups; for WHOLE entry lists the unmodelled entries "
+             "come out field for field in their original ORDER, and at their original POSITION when no empty slot precedes "
+             "them; lifted to whole TRIG sections and to load -> append triggers / edit elsewhere -> save. Tie: maps with "
+             "unknown / unsupported content plus random edits, positions compared on the implementation, and the model "
+             "reproduces the saved bytes exactly.",
         ref="DESIGN.md 5.13",
-        note="UPUS is recognised and recomputed (finding F17, reported under C03), so it is not in the unmodelled set.",
+        note="Known findings (each with a replayed witness): upus-recomputed (UPUS is a recognised section without a rich "
+             "model and is rewritten), interior-gap-compacted (position lost, order and content kept), split-trig-sections.",
         tech="Coq proof (positional pass-through by induction over the section list; raw-entry round trip) + byte-exact model correspondence",
     ),
     "C11": dict(
         text="Coq theorems for EVERY rich content (any list lengths, integers, indices): if the trigger section is emitted "
              "at all it is a whole number of 2400-byte triggers with 16 conditions, 64 actions, 27 player flags (else the "
              "call raised); the rich encoders always lay out 255 / 64 / 64 / 512 slots; a value of a layout's shape encodes "
-             "to exactly the layout's size and a strict array of another length raises. The reference rules (every written "
+             "to exactly the layout's size and a strict array of another length raises; WHOLE MAP: every table section "
+             "RichChkIo.encode_chk emits (re-encoded, recomputed UPUS, appended SWNM/UPRP/UPUS) has its mandated size for any "
+             "rich content in rich form, and whatever decode_chk returns is in rich form; a string table holding anything "
+             "but NUL-free 7-bit text is never written. The reference rules (every written "
              "id refers to an existing non-empty entry, offsets reach a NUL, UPUS agrees) are judged by an independent "
              "validator on degenerate scenarios; the pipeline model agrees with the implementation on all of them "
              "(bytes or exception).",
         ref="DESIGN.md 5.14",
-        note="Two defects found and repaired (17+/65+ entries; out-of-range location index).",
+        note="Defects found and repaired: 17+/65+ entries, out-of-range location index (twice), non 7-bit strings cut short. "
+             "Known finding content-empty-object-referenced.",
         tech="Coq proof (size theorems over the layout language and the rich encoders) + byte-exact model correspondence + independent validator",
     ),
     "C12": dict(
@@ -280,7 +293,7 @@ def main():
         }],
         "checks": checks,
         "not_applicable": [{"property_id": p, "reason": NOT_YET} for p in ALL if p not in CHECKS],
-        "notes": "14 fix: commits in /repo (7837be1 ... fe425b2) and 10 recorded findings: see KNOWN_FINDINGS.txt and DESIGN.md section 10.4. Seeded breaking changes and what catches them: /verif/seeded and DESIGN.md section 10.6.",
+        "notes": "19 fix: commits in /repo (7837be1 ... cee72c9) and 16 recorded findings: see KNOWN_FINDINGS.txt and DESIGN.md section 10.4 / 10.7. Seeded breaking changes (76 in four rounds) and what catches them: /verif/seeded and DESIGN.md section 10.6.",
     }
     Path("/verif/MANIFEST.json").write_text(json.dumps(m, indent=1) + "\n")
 
